@@ -131,8 +131,11 @@ PROPS["C16"] = {
         "environment of the middleware: path, header/query/body token and session lookup are arbitrary (valid_token is an uninterpreted predicate on the token string); "
         "calls without a model (metrics, response building) are opaque and assumed not to forward the request",
         "gRPC: PayloadUtils::get_payload_type returns an arbitrary type string; RequestMeta fields arbitrary; cluster-internal types = constants named RAFT_* and NAMING_ROUTE_REQUEST",
+        "s16_7: DirectCacheManager's Handler<CacheManagerRaftReq> (Set plain / nx / xx, GetSet, Get, Exists, Remove, Expire) and clear_time_out from source over every history of 3 (thorough: 4) steps on two "
+        "token keys; now_second_i32 is a model variable per step (non-decreasing, < 2^30), login time <= apply clock, lifetimes < 2^30; comparisons signed (the code's integers are i32 / i64); "
+        "inner_mem_cache::TimeoutSet modelled as a list of (time, key); soundness oracle only (nothing is served past login time + lifetime); one-clock histories are replayed / validated on a real actor",
     ],
-    "outside": "token issuance and expiry (session cache), actix internals, how token_session / cluster_token_is_valid are computed",
+    "outside": "the limiter entries and Incr / Decr of the cache table, its snapshot records (they are written without their deadline: entries come back expired - fail-safe for C16), actix internals, how cluster_token_is_valid is computed",
     "explanation": "bounded symbolic evaluation of the real source text (routes, regexes, ignore lists, middleware and dispatcher bodies) into SMT "
                    "(strings/regular languages); every obligation is a language-inclusion or implication query decided by z3",
 }
@@ -325,7 +328,8 @@ PROPS["C09"] = {
         "operations are applied through ConfigActor::set_config / del_config (what the ConfigRaftCmd handler calls after parsing the key); two keys in two tenants",
         "listings: every API entry point queries with Some(tenant); the tenant == None branch of TenantIndex::query_config_page is not part of the claim",
     ],
-    "outside": "HTTP / gRPC parameter parsing; text size limits; the md5 function itself (the native replay uses the real one)",
+    "outside": "HTTP / gRPC parameter parsing other than the listing parameters (s09_6: get_config's search dispatch, build_search_param / build_like_search_param, the console's to_param); text size limits; "
+               "the md5 function itself (the native replay uses the real one)",
     "explanation": "bounded symbolic execution of the config store's real source with arbitrary string contents",
 }
 PROPS["C19"]["smt"] = _c19_smt
@@ -553,12 +557,37 @@ def _c20_smt(tier, seed):
             info["translator_validation_real_scale"] = {"outcome": nv["outcome"], "message": nv["message"], "path": nv["path"]}
             if nv["outcome"] != "passed":
                 bob.update({"verdict": "inconclusive", "message": "the obligation is discharged but the real SnapshotWriter / SnapshotReader do not round-trip a sampled snapshot: %s" % nv["message"]})
+    from rs2smt import c20meta
+    mob = c20meta.run(tier, seed)
+    if not os.environ.get("VERIF_NO_NATIVE"):
+        if mob.get("verdict") == "violation" and (mob.get("counterexample") or {}).get("value_lengths"):
+            name = "metadata_file_" + "_".join(str(x) for x in mob["counterexample"]["value_lengths"])
+            rr = native_scenarios("C20", "violation", [name], mob["message"], {"obligation": mob["harness"], "model": mob.get("counterexample")})
+            mob["replay_path"] = rr["path"]
+            mob["replay"] = {"path": rr["path"], "outcome": rr["outcome"], "message": rr["message"]}
+            if rr["outcome"] != "reproduced":
+                mob.update({"verdict": "inconclusive", "message": "engine-S counterexample (%s) did not reproduce on the real InstanceMetaRepository (%s %s)" % (mob["message"], rr["outcome"], rr["message"])})
+            else:
+                mob["message"] = "%s [real InstanceMetaRepository: %s]" % (mob["message"], rr["message"][:300])
+        elif mob.get("verdict") == "violation":
+            from lib import native
+            path = native.write_replay("C20", "c20", "model", [], {"engine": "smt", "mode": "model-only", "obligation": mob["harness"], "message": mob["message"], "model": mob.get("counterexample")})
+            mob["replay_path"] = path
+            mob["replay"] = {"path": path, "outcome": "model-only", "message": "file-name lengths of the metadata file map"}
+        elif mob.get("verdict") == "discharged":
+            nv = native_scenarios("C20", "validate", ["metadata_file_3_300_700", "metadata_file_700_700_700", "metadata_file_300_3_1100", "metadata_file_3_3_3"])
+            info["translator_validation_metadata_files"] = {"outcome": nv["outcome"], "message": nv["message"], "path": nv["path"]}
+            if nv["outcome"] != "passed":
+                mob.update({"verdict": "inconclusive", "message": "the obligation is discharged but the real InstanceMetaRepository does not round-trip a sampled file: %s" % nv["message"]})
     info["wall_s"] = round(__import__("time").time() - t0, 1)
-    return {"obligations": [ob, bob], "info": info}
+    return {"obligations": [ob, bob, mob], "info": info}
 
 
 PROPS["C20"]["smt"] = _c20_smt
 PROPS["C20"]["assumptions"] = PROPS["C20"]["assumptions"] + [
+    "s20_7: InstanceMetaRepository::{write_records_to_file, read_records_from_file, save_file_map, load_file_map}, the generated code of InstanceMetaDo / InstanceFileDo and MessageBufReader from source over "
+    "the file model (File::create truncates, read returns at most the buffer's length, rename replaces); records files of 3 records with metadata value lengths from {3, 300, 700} (thorough: also 1100), "
+    "file maps of 2..=4 services with file names of 32 / 500 / 700 bytes; a branch on a value byte counts as a decoding failure",
     "s20_6: SnapshotWriter / SnapshotReader / MessageBufReader at the source's own 1024-byte chunk and buffer sizes over the file model; snapshots of 3 records with value lengths from {3, 100, 600, 2100} "
     "(thorough: also 1100), every 4th value byte symbolic; a branch on a value byte counts as a decoding failure (lengths and tags were written from concrete numbers)",
     "s20_5: FileMessageReader is evaluated from source over the in-memory file model of rs2smt/iomodel.py (read returns the bytes that exist, read_exact fails on a short read); "
